@@ -159,6 +159,14 @@ func (h *Hist) SetEpoch(e int) {
 	h.mu.Unlock()
 }
 
+// libraryGoroutines counts the goroutines that were started by a go statement
+// of the go-res root package (listener, workers, query event listeners,
+// whatever they are called in the tree under test): once a service has been
+// shut down and its query events have expired, none of them may be left.
+func libraryGoroutines() int {
+	return stacksContaining("created by github.com/jirenius/go-res.")
+}
+
 // stacksContaining counts goroutines whose stack contains the substring.
 func stacksContaining(sub string) int {
 	buf := make([]byte, 1<<20)
